@@ -181,3 +181,18 @@ M("c06-nf-twice", "C06", CFD + "__init__.py", "        nf = self.nf\n        hq 
 M("c06-nf-scale", "C06", CFD + "__init__.py", "        self.nf = nf_default(esf.Q2, esf.info.threshold)", "        self.nf = nf_default(esf.Q2 / 4.0, esf.info.threshold)", expect="C06.single")
 M("c06-zm-rewrites-thr", "C06", "input/compatibility.py", "        for fl in hqfl:\n            theory[f\"ZM{fl}\"] = True\n", "        for fl in hqfl:\n            theory[f\"ZM{fl}\"] = True\n            theory[f\"k{fl}Thr\"] = 1.0\n", expect="C06.fns")
 B("c06-fns-membership", "C06", "input/compatibility.py", '    elif fns == "FFNS" or fns == "FFN0":', '    elif fns in ("FFNS", "FFN0"):')
+
+# ----------------------------------------------------------------------------- C09
+HPF = CFD + "heavy/partonic_channel.py"
+M("c09-lt", "C09", HPF, "        return shat <= 4 * self.m2hq", "        return shat < 4 * self.m2hq", expect="C09.cmp")
+M("c09-mass-factor", "C09", HPF, "        return shat <= 4 * self.m2hq", "        return shat <= self.m2hq", expect="C09.cmp")
+M("c09-shat", "C09", HPF, "        shat = self.ESF.Q2 * (1 - z) / z", "        shat = self.ESF.Q2 * (1 - z)", expect="C09.cmp")
+M("c09-delete-guard", "C09", CFD + "heavy/fl_nc.py", "        def cg(z, _args):\n            if self.is_below_pair_threshold(z):\n                return 0.0\n            return (\n                self._FHprefactor / z * LeProHQ.cg0(\"FL\", \"VV\"", "        def cg(z, _args):\n            return (\n                self._FHprefactor / z * LeProHQ.cg0(\"FL\", \"VV\"", expect="fl_nc::GluonVV.NLO")
+M("c09-guard-wrong-var", "C09", CFD + "heavy/f2_nc.py", "        def dq(z, _args):\n            if self.is_below_pair_threshold(z):", "        def dq(z, _args):\n            if self.is_below_pair_threshold(self.ESF.x):", expect="f2_nc::NonSinglet.NNLO")
+M("c09-decorator-bypass", "C09", CFD + "heavy/g4_nc.py", "class NonSinglet(pc.NeutralCurrentBase):\n", "class NonSinglet(pc.NeutralCurrentBase):\n    def decorator(self, f):\n        return f\n\n", expect="g4_nc::NonSinglet")
+M("c09-decorator-condition", "C09", HPF, "        if self.is_below_pair_threshold(self.ESF.x):\n            return lambda: pc.RSL()\n        return f", "        if self.is_below_pair_threshold(self.ESF.x) and self.nf > 9:\n            return lambda: pc.RSL()\n        return f", expect="C09.hadronic")
+M("c09-cc-point", "C09", HPF, "        return self.x / self.labda", "        return self.x * self.labda", expect="C09.cc")
+M("c09-conv-guard-order", "C09", "esf/conv.py", "    # empty domain?\n    if x >= (1 - eps_integration_border):\n        return 0.0, 0.0\n", "", expect="C09.cc")
+M("c09-new-unguarded-closure", "C09", CFD + "heavy/f2_nc.py", "class SingletAA(pc.NeutralCurrentBase):\n    \"\"\"Axial-vector-axial-vector singlet component.\"\"\"\n", "class SingletAA(pc.NeutralCurrentBase):\n    \"\"\"Axial-vector-axial-vector singlet component.\"\"\"\n\n    def NLO(self):\n        def cq(z, _args):\n            return self._FHprefactor / z * LeProHQ.cq1(\"F2\", \"AA\", self._xi, self._eta(z))\n\n        return RSL(cq)\n", expect="SingletAA.NLO")
+B("c09-not-gt", "C09", HPF, "        return shat <= 4 * self.m2hq", "        return not shat > 4 * self.m2hq")
+B("c09-rename-eta", "C09", HPF, "        self._eta = lambda z: self._xi / 4.0 * (1.0 / z - 1.0) - 1.0", "        self._eta = lambda zz: self._xi / 4.0 * (1.0 / zz - 1.0) - 1.0")
